@@ -890,9 +890,6 @@ func (fr *frame) store(p *Place, v string, st *State) {
 }
 
 // globalInit adds facts about initial values of package-level variables with simple literal initialisers.
-func (ft *FT) globalInit(name, c, sort string) {
-	// handled by contracts (axioms about globals); nothing here
-}
 
 // ---------------------------------------------------------------------------
 // frame execution
